@@ -1,7 +1,8 @@
 import PfdlModel.Basic
-/-! C13 – guards and conditions evaluate to their arithmetic/logical value (operator table part). -/
+import PfdlModel.ExprParse
+/-! C13 – guards and conditions evaluate to their arithmetic / logical value. -/
 namespace Pfdl.Props.C13
-open Pfdl Pfdl.Generated
+open Pfdl Pfdl.Generated Pfdl.ExprParse
 
 /-- the 12 binary operators of the grammar, with the Python function each must denote -/
 def expectedOps : List (String × PyOp) :=
@@ -12,5 +13,187 @@ def expectedOps : List (String × PyOp) :=
     source on every run) and maps to the Python function with its ordinary meaning. -/
 theorem table_complete : ∀ p ∈ expectedOps, opTable.lookup p.1 = some p.2 := by
   decide
+
+/-! ### ordinary semantics, stated without the operator table -/
+
+/-- ordinary values: a number or a truth value -/
+inductive OV where
+  | num (q : Rat)
+  | bool (b : Bool)
+deriving DecidableEq
+
+def OV.truth : OV → Bool
+  | .num q => q != 0
+  | .bool b => b
+
+def Val.toOV : Val → Option OV
+  | .num q _ => some (.num q)
+  | .bool b => some (.bool b)
+  | _ => none
+
+/-- ordinary arithmetic, comparison and boolean meaning of one operator on typed operands;
+    `none`: ill-typed, or a division by zero -/
+def binSem (op : String) (a b : OV) : Option OV :=
+  match op, a, b with
+  | "+", .num x, .num y => some (.num (x + y))
+  | "-", .num x, .num y => some (.num (x - y))
+  | "*", .num x, .num y => some (.num (x * y))
+  | "/", .num x, .num y => if y = 0 then none else some (.num (x / y))
+  | "<", .num x, .num y => some (.bool (decide (x < y)))
+  | "<=", .num x, .num y => some (.bool (decide (x ≤ y)))
+  | ">", .num x, .num y => some (.bool (decide (x > y)))
+  | ">=", .num x, .num y => some (.bool (decide (x ≥ y)))
+  | "==", .num x, .num y => some (.bool (decide (x = y)))
+  | "!=", .num x, .num y => some (.bool (decide (x ≠ y)))
+  | "==", .bool x, .bool y => some (.bool (decide (x = y)))
+  | "!=", .bool x, .bool y => some (.bool (decide (x ≠ y)))
+  | "And", .bool x, .bool y => some (.bool (x && y))
+  | "Or", .bool x, .bool y => some (.bool (x || y))
+  | _, _, _ => none
+
+/-- the value of a tree under ordinary semantics, for the value `v` of its root variable: parentheses are
+    transparent, attribute paths are resolved field by field -/
+def sem (v : Val) : Expr → Option OV
+  | .lit w => Val.toOV w
+  | .path [] => none
+  | .path (_ :: segs) => (v.follow segs).bind Val.toOV
+  | .not e => match sem v e with
+    | some (.bool b) => some (.bool (!b))
+    | _ => none
+  | .paren e => sem v e
+  | .bin op l r => match sem v l, sem v r with
+    | some a, some b => binSem op a b
+    | _, _ => none
+  | .none => none
+
+theorem applyOp_sem {op : String} {a b : Val} {x y r : OV} (ha : Val.toOV a = some x) (hb : Val.toOV b = some y)
+    (h : binSem op x y = some r) : ∃ w, applyOp op a b = some w ∧ Val.toOV w = some r := by
+  unfold binSem at h
+  split at h
+  all_goals first
+    | (cases a <;> cases b <;> simp [Val.toOV] at ha hb
+       obtain rfl := ha; obtain rfl := hb
+       first
+        | (simp only [Option.some.injEq] at h; subst h
+           simp [applyOp, opTable, List.lookup, applyPyOp, Val.toNum?, Val.toOV]
+           try (first | exact Bool.beq_eq_decide_eq _ _ | (rename_i b1 b2; cases b1 <;> cases b2 <;> decide)))
+        | (split at h
+           · simp at h
+           · rename_i hy
+             simp only [Option.some.injEq] at h; subst h
+             simp [applyOp, opTable, List.lookup, applyPyOp, Val.toNum?, Val.toOV, hy]))
+    | simp at h
+
+/-- **Evaluation = ordinary value.**  For every expression tree and every value of its root variable: if
+    the tree has a value under ordinary semantics (it is well typed and divides by nothing that is zero) then
+    `execute_expression` yields exactly that value — with the operator table re-extracted from the source. -/
+theorem exec_eq_sem (v : Val) : ∀ (e : Expr) (k : Nat) (r : OV), sem v e = some r →
+    ∃ w, (e.exec (fun _ => some v) k).1 = some w ∧ Val.toOV w = some r
+  | .lit w, k, r, h => ⟨w, by simp [Expr.exec], by simpa [sem] using h⟩
+  | .path [], k, r, h => by simp [sem] at h
+  | .path (x :: segs), k, r, h => by
+    simp only [sem] at h
+    cases hf : v.follow segs with
+    | none => simp [hf] at h
+    | some w => exact ⟨w, by simp [Expr.exec, hf], by simpa [hf] using h⟩
+  | .not e, k, r, h => by
+    simp only [sem] at h
+    split at h
+    · rename_i b hb
+      obtain ⟨w, hw, ho⟩ := exec_eq_sem v e k _ hb
+      simp only [Option.some.injEq] at h
+      subst h
+      refine ⟨.bool (!w.truthy), by simp [Expr.exec, hw], ?_⟩
+      cases w <;> simp [Val.toOV] at ho
+      subst ho
+      simp [Val.toOV, Val.truthy]
+    · simp at h
+  | .paren e, k, r, h => by
+    obtain ⟨w, hw, ho⟩ := exec_eq_sem v e k r (by simpa [sem] using h)
+    exact ⟨w, by simpa [Expr.exec] using hw, ho⟩
+  | .bin op l r', k, r, h => by
+    simp only [sem] at h
+    split at h
+    · rename_i a b ha hb
+      obtain ⟨wa, hwa, hoa⟩ := exec_eq_sem v l k a ha
+      obtain ⟨wb, hwb, hob⟩ := exec_eq_sem v r' (k + (l.exec (fun _ => some v) k).2.length) b hb
+      obtain ⟨w, hw, ho⟩ := applyOp_sem hoa hob h
+      refine ⟨w, ?_, ho⟩
+      simp only [Expr.exec]
+      rw [show l.exec (fun _ => some v) k = ((l.exec (fun _ => some v) k).1, (l.exec (fun _ => some v) k).2) from rfl]
+      simp only [hwa]
+      rw [show r'.exec (fun _ => some v) (k + (l.exec (fun _ => some v) k).2.length) = (some wb, (r'.exec (fun _ => some v) (k + (l.exec (fun _ => some v) k).2.length)).2) by rw [← hwb]]
+      simp [hw]
+    · simp at h
+  | .none, k, r, h => by simp [sem] at h
+
+/-- the decision the scheduler takes (`bool(...)` of the evaluation) is the truth value -/
+theorem decision_eq_truth (v : Val) (e : Expr) (k : Nat) (r : OV) (h : sem v e = some r) :
+    ((e.exec (fun _ => some v) k).1.map Val.truthy) = some r.truth := by
+  obtain ⟨w, hw, ho⟩ := exec_eq_sem v e k r h
+  rw [hw]
+  cases w <;> simp [Val.toOV] at ho <;> subst ho <;> simp [Val.truthy, OV.truth]
+
+/-! ### precedence: the ranks of the generated parser (re-extracted from `PFDLParser.py` on every run) -/
+
+def rank (o : String) : Option Nat := (precTable.lookup o).map (·.1)
+
+/-- both operators are in the table and the first ranks strictly above the second -/
+def above (o1 o2 : String) : Bool :=
+  match rank o1, rank o2 with
+  | some p, some q => decide (q < p)
+  | _, _ => false
+
+/-- multiplication and division bind tighter than addition and subtraction -/
+theorem mul_div_above_add_sub : ∀ m ∈ ["*", "/"], ∀ a ∈ ["+", "-"], above m a = true := by decide
+/-- these bind tighter than comparisons -/
+theorem add_sub_above_comparisons : ∀ a ∈ ["+", "-"], ∀ c ∈ ["<", "<=", ">", ">=", "==", "!="],
+    above a c = true := by decide
+/-- comparisons bind tighter than And, And tighter than Or -/
+theorem comparisons_above_and_above_or : (∀ c ∈ ["<", "<=", ">", ">=", "==", "!="], above c "And" = true) ∧
+    above "And" "Or" = true := by decide
+/-- operators associate to the left: the right operand of every operator must bind strictly tighter -/
+theorem left_associative : ∀ e ∈ precTable, e.2.2 = e.2.1 + 1 := by decide
+/-- negation binds tighter than And / Or and looser than a comparison (`!a < b` is `!(a < b)`) -/
+theorem negation_rank : rank "And" = some 3 ∧ rank "<" = some 5 ∧ 3 < unaryPrec ∧ unaryPrec < 5 := by
+  decide
+
+/-- **Finding K10 (witness).**  `*` and `/` do not have one rank: the grammar lists them as separate
+    alternatives, so `*` binds tighter and `a / b * c` is read `a / (b * c)`. -/
+theorem k10_witness : rank "*" ≠ rank "/" ∧
+    ∀ a b c : Expr, parse [.atom a, .op "/", .atom b, .op "*", .atom c] = some (.bin "/" a (.bin "*" b c)) := by
+  refine ⟨by decide, ?_⟩
+  intro a b c
+  simp [parse, parseE, loopE, precTable, List.lookup]
+
+/-- the same split between `-` and `+` (`a + b - c` is read `a + (b - c)`) does not change the value -/
+theorem minus_plus_split_harmless (x y z : Rat) : x + (y - z) = x + y - z := by
+  rw [Rat.sub_eq_add_neg, Rat.sub_eq_add_neg, Rat.add_assoc]
+
+/-! readings of three-operand texts, for arbitrary operands -/
+section
+variable (a b c : Expr)
+example : parse [.atom a, .op "+", .atom b, .op "*", .atom c] = some (.bin "+" a (.bin "*" b c)) := by
+  simp [parse, parseE, loopE, precTable, List.lookup]
+example : parse [.atom a, .op "*", .atom b, .op "+", .atom c] = some (.bin "+" (.bin "*" a b) c) := by
+  simp [parse, parseE, loopE, precTable, List.lookup]
+example : parse [.atom a, .op "-", .atom b, .op "-", .atom c] = some (.bin "-" (.bin "-" a b) c) := by
+  simp [parse, parseE, loopE, precTable, List.lookup]
+example : parse [.atom a, .op "/", .atom b, .op "/", .atom c] = some (.bin "/" (.bin "/" a b) c) := by
+  simp [parse, parseE, loopE, precTable, List.lookup]
+example : parse [.atom a, .op "<", .atom b, .op "And", .atom c] = some (.bin "And" (.bin "<" a b) c) := by
+  simp [parse, parseE, loopE, precTable, List.lookup]
+example : parse [.atom a, .op "Or", .atom b, .op "And", .atom c] = some (.bin "Or" a (.bin "And" b c)) := by
+  simp [parse, parseE, loopE, precTable, List.lookup]
+example : parse [.lpar, .atom a, .op "+", .atom b, .rpar, .op "*", .atom c] = some (.bin "*" (.paren (.bin "+" a b)) c) := by
+  simp [parse, parseE, loopE, precTable, List.lookup]
+example : parse [.bang, .atom a, .op "And", .atom b] = some (.bin "And" (.not a) b) := by
+  simp [parse, parseE, loopE, precTable, List.lookup, unaryPrec]
+end
+
+/-! non-vacuity: a well-typed expression over a struct value -/
+def v0 : Val := .struct [("n", .num 3 false), ("b", .bool true), ("m", .struct [("n", .num (1/2) true)])]
+def e0 : Expr := .bin "And" (.path ["r", "b"]) (.bin ">=" (.bin "*" (.path ["r", "m", "n"]) (.lit (.num 2 false))) (.lit (.num 1 false)))
+example : ∃ r, sem v0 e0 = some r ∧ r.truth = true := ⟨.bool true, by decide +kernel, rfl⟩
 
 end Pfdl.Props.C13
